@@ -1,7 +1,10 @@
 package storage
 
 import (
+	"bytes"
+
 	"github.com/dgraph-io/badger/v3"
+	"github.com/kelindar/binary"
 
 	"github.com/emitter-io/emitter/internal/message"
 	"github.com/emitter-io/emitter/internal/verifrt"
@@ -32,3 +35,63 @@ func VerifC09Lookup(v *verifrt.T) {
 	v.Assert(!panicked, "C09.lookup.no-panic")
 	v.Assert(cap(f) <= 70000, "C09.alloc-bounded")
 }
+
+// binary.Unmarshal into a *lookupQuery is kelindar/binary's reflectStructCodec over the
+// fields in declaration order: Ssid (varuintSliceCodec), From and Until (varintCodec),
+// StartFromID (byteSliceCodec), Limit (varintCodec) - transcribed from codecs.go v1.0.19
+// over the real Decoder. Both slice codecs allocate for the declared length before reading.
+func c09Unmarshal(b []byte, out interface{}) error {
+	d := binary.NewDecoder(bytes.NewBuffer(b))
+	q := out.(*lookupQuery)
+	var l, x uint64
+	var err error
+	if l, err = d.ReadUvarint(); err == nil && l > 0 {
+		q.Ssid = make(message.Ssid, int(l))
+		for i := 0; i < int(l); i++ {
+			if x, err = d.ReadUvarint(); err == nil {
+				q.Ssid[i] = uint32(x)
+			}
+		}
+	}
+	if err != nil {
+		return err
+	}
+	if q.From, err = d.ReadVarint(); err != nil {
+		return err
+	}
+	if q.Until, err = d.ReadVarint(); err != nil {
+		return err
+	}
+	if l, err = d.ReadUvarint(); err == nil && l > 0 {
+		data := make([]byte, int(l), int(l))
+		if _, err = d.Read(data); err == nil {
+			q.StartFromID = data
+		}
+	}
+	if err != nil {
+		return err
+	}
+	lim, err := d.ReadVarint()
+	q.Limit = int(lim)
+	return err
+}
+
+// VerifC09StoreSurvey: a history survey ("ssdstore") arrives in a peer frame and is handled
+// on the mesh goroutine; its payload is arbitrary bytes. OnSurvey must not panic and must
+// not allocate out of proportion to those bytes.
+func VerifC09StoreSurvey(v *verifrt.T) {
+	var s *SSD
+	if v.Symbolic() {
+		s = &SSD{db: new(badger.DB)}
+	} else {
+		mem := NewInMemory(nil)
+		mem.Configure(nil)
+		s = &mem.SSD
+	}
+	payload := v.Bytes(v.Choice(v.Bound("surveybytes")+1, "n"), "p")
+	panicked := v.Try(func() { s.OnSurvey("ssdstore", payload) })
+	v.Reach("store-surveyed")
+	v.Assert(!panicked, "C09.store-survey.no-panic")
+}
+
+func c09FrameEncode(f *message.Frame) []byte { return []byte{byte(len(*f))} }
